@@ -950,15 +950,16 @@ impl<'a, R: ?Sized + std::io::BufRead> Tokenizer<'a, R> {
                                     (1, false)
                                 };
 
-                            if is_arithmetic {
-                                self.cross_state.arithmetic_expansion = true;
-                            }
+                            // Inside `$((...))`, `<<` is a shift operator; inside `$(...)` it
+                            // introduces a here-document again, whatever encloses us.
+                            let enclosing_arithmetic = std::mem::replace(
+                                &mut self.cross_state.arithmetic_expansion,
+                                is_arithmetic,
+                            );
 
                             self.consume_nested_construct(&mut state, ')', "(", initial_nesting)?;
 
-                            if is_arithmetic {
-                                self.cross_state.arithmetic_expansion = false;
-                            }
+                            self.cross_state.arithmetic_expansion = enclosing_arithmetic;
                         }
 
                         Some('[') => {
@@ -986,6 +987,13 @@ impl<'a, R: ?Sized + std::io::BufRead> Tokenizer<'a, R> {
 
                             let mut pending_here_doc_tokens = vec![];
                             let mut drain_here_doc_tokens = false;
+
+                            // Directly inside `${...}` a `<<` is never a here-document operator
+                            // (it is a shift in a subscript or substring offset, or literal text).
+                            let enclosing_arithmetic = std::mem::replace(
+                                &mut self.cross_state.arithmetic_expansion,
+                                true,
+                            );
 
                             loop {
                                 let cur_token = if drain_here_doc_tokens
@@ -1039,6 +1047,8 @@ impl<'a, R: ?Sized + std::io::BufRead> Tokenizer<'a, R> {
                                         // We hit the end brace we were looking for but did not
                                         // yet consume it. Do so now.
                                         state.append_char(self.next_char()?.unwrap());
+                                        self.cross_state.arithmetic_expansion =
+                                            enclosing_arithmetic;
                                         break;
                                     }
                                     TokenEndReason::EndOfInput => {
